@@ -10,7 +10,7 @@ Output: the canonical exported object (`exp`), the tree rebuilt by the matching 
 or the tree parsed from a literal Newick string (`parse`); `rej` for any exception.
 """
 from __future__ import annotations
-import io, contextlib, itertools, math, random, re
+import io, contextlib, itertools, math, random, re, zlib
 import core
 from core import hx
 from runner import Case
@@ -663,8 +663,32 @@ def _build(d):
         _f, order = H.final(d["hinit"], d["hedits"])
         nodes = [objs[i] for i in order]
         return root, nodes, nodes[d["start"]]
-    root, nodes = core.build_node_tree(d["spec"], sep=d.get("sep", "/"))
+    root, nodes = core.build_node_tree(d["spec"], cls=_prop_class(d), sep=d.get("sep", "/"))
     return root, nodes, nodes[d["start"]]
+
+
+_PROP = {}
+
+
+def _prop_class(d):
+    """Requested attributes are read with node.get_attr(key), i.e. getattr: a user subclass may supply them through a
+    read-only property (or a class-level default) instead of the instance dictionary.  For a third of the
+    attr_dict requests (a function of the case) the requested keys live in private fields `_p_<key>` behind
+    properties; the record must carry the same values.  None (= plain Node) otherwise."""
+    if d.get("all") or not d.get("ad") or d["fmt"] not in ("dict", "nested", "pandas", "polars"):
+        return None
+    keys = tuple(sorted({k for k, _c in d["ad"]}))
+    if zlib.crc32(repr((d["fmt"], keys, d["spec"])).encode()) % 3 != 0:
+        return None
+    if keys not in _PROP:
+        from bigtree import Node
+        ns = {k: property(lambda self, _k=k: self.__dict__.get("_p_" + _k)) for k in keys}
+
+        def __init__(self, name, **kw):
+            Node.__init__(self, name, **{("_p_" + k if k in keys else k): v for k, v in kw.items()})
+        ns["__init__"] = __init__
+        _PROP[keys] = type("PropNode", (Node,), ns)
+    return _PROP[keys]
 
 
 def _tolist(t):
@@ -831,7 +855,7 @@ def _expected_attrs(d, n):
     """ordered (key, value) pairs the record must carry beyond name/path/parent"""
     if d["all"]:
         return sorted(_public(n).items())
-    return [(col, vars(n).get(k)) for k, col in d["ad"]]
+    return [(col, vars(n).get(k, vars(n).get("_p_" + k))) for k, col in d["ad"]]
 
 
 def _mixed_keys(records):
